@@ -51,6 +51,15 @@ Fixpoint plain_read (e : aexp) : option loc :=
   | ACast a from to => if from <=? to then plain_read a else None
   | _ => None
   end.
+(* a dispatch arm forwards the CpuContext call unchanged: the call under widening casts only *)
+Fixpoint plain_var (e : aexp) (x : name) : bool :=
+  match e with
+  | AVar y => name_eqb y x
+  | ACast a from to => (from <=? to) && plain_var a x
+  | _ => false
+  end.
+Definition plain_bvar (e : bexp) (x : name) : bool :=
+  match e with BVar y => name_eqb y x | _ => false end.
 Definition acc_loc (e : aexp) : loc := match plain_read e with Some l => l | None => dummy_loc end.
 Definition ct_sp_loc (c : ctx_table) : loc := acc_loc (ct_sp_acc c).
 Definition ct_ip_loc (c : ctx_table) : loc := acc_loc (ct_ip_acc c).
@@ -87,6 +96,12 @@ Definition diagnose (c : ctx_table) : list (name * string * name) :=
        (ok_register c) (ct_registers c) ++
   diag c "general_purpose_registers() is not this type's REGISTERS"%string
        (fun _ => strs_eqb (ct_gpr c) (ct_registers c)) [ct_variant c] ++
+  diag c "MinidumpContext::get_register_always does not forward this type's get_register_always unchanged"%string
+       (fun _ => plain_var (ct_md_get c) v_ga) [ct_variant c] ++
+  diag c "MinidumpContext::get_register does not test exactly this type's register_is_valid(reg, &self.valid)"%string
+       (fun _ => plain_bvar (ct_md_valid c) v_iv) [ct_variant c] ++
+  diag c "MinidumpContext::valid_registers does not filter by exactly this type's register_is_valid(reg, &self.valid)"%string
+       (fun _ => plain_bvar (ct_md_filter c) v_iv) [ct_variant c] ++
   diag c "default_memoize_register does not compare names exactly: a spelling set_register / get_register_always do not know (they match string literals) would be reported present"%string
        (fun _ => ct_memo_cmp c =? 0) [ct_name c] ++
   diag c "a register name or alias contains an upper-case ASCII letter"%string
